@@ -669,7 +669,8 @@ impl<'a> Run<'a> {
         let db = self.db();
         db.flush_logs().map_err(|e| format!("flush_logs: {e}"))?;
         // an enact call that meets the end of a log file returns false once: go on with the next file
-        for _ in 0..6 {
+        // (one pass per log file; long histories leave many files behind)
+        for _ in 0..64 {
             while enact_one_guarded(db).map_err(|e| format!("enact: {e}"))? {}
         }
         db.clean_logs().map_err(|e| format!("clean_logs: {e}"))?;
@@ -924,7 +925,8 @@ pub fn cmd_replay(args: &HashMap<String, String>) -> i32 {
                     nontrivial = true;
                 }
                 let r = catch(|| run.step(st).and_then(|_| run.observe(o, nt, nx)).and_then(|_| {
-                    if o["qlen"].as_u64() == Some(0) && (a == "Restart" || i + 1 == steps.len() || i % 5 == 4) && run.readers.is_empty() {
+                    // (quiescent: nothing queued and nothing taken by a parked log worker)
+                    if o["quiescent"].as_bool() == Some(true) && (a == "Restart" || i + 1 == steps.len() || i % 5 == 4) && run.readers.is_empty() {
                         run.drain().and_then(|_| run.check_counts(o)).and_then(|_| run.check_structure(o)).map(|orph| {
                             if orph > 0 {
                                 leak_seen = orph;
